@@ -1373,8 +1373,8 @@ impl Property for C02 {
     }
     fn budget(tier: Tier) -> u64 {
         match tier {
-            Tier::Quick => 30_000,
-            Tier::Thorough => 900_000,
+            Tier::Quick => 300_000,
+            Tier::Thorough => 5_000_000,
         }
     }
 
